@@ -249,9 +249,11 @@ class TranslatorZ3(Translator):
                 else:
                     raise NotImplementedError("Unsupported OP yet: %s" % expr.op)
         elif expr.op == 'parity':
-            arg = z3.Extract(7, 0, res)
+            # Parity of the low byte (of the whole value if narrower)
+            nb_bits = min(8, expr.args[0].size)
+            arg = z3.Extract(nb_bits - 1, 0, res)
             res = z3.BitVecVal(1, 1)
-            for i in range(8):
+            for i in range(nb_bits):
                 res = res ^ z3.Extract(i, i, arg)
         elif expr.op == '-':
             res = -res
